@@ -857,15 +857,33 @@ Section WithCfg.
   (* a count that is known to fit in the capacity just reserved; impossible counts never get here *)
   Definition small (n : Z) : nat := Z.to_nat (Z.min n 1000000).
 
+  (* usize `a + b`: panics in a debug build, wraps in an optimized one (as Eval.arith) *)
+  Definition uadd (a b : Z) : M Z :=
+    let r := a + b in
+    if r <? W64 then ret r else if release cfg then ret (r - W64) else panic.
+
+  (* src/lib.rs resize: `for _i in 0..num_elems { self.push(value.clone()) }` as the translator renders a
+     range loop (EquivResize.v); fuel exhaustion = the loop does not end *)
+  Fixpoint resize_loop (fuel : nat) (v : nat) (value : elem) (i hi : Z) : M unit :=
+    if i <? hi then
+      match fuel with
+      | O => fun s => (OutOfFuel, s)
+      | S fuel => c <- clone_elem value ;; push v c ;;; i' <- uadd i 1 ;; resize_loop fuel v value i' hi
+      end
+    else ret tt.
+
+  (* the body of resize as written: match new_len.cmp(&len) { Equal, Greater, Less } *)
+  Definition resize_body (v : nat) (new_len : Z) (value : elem) : M unit :=
+    l <- len v ;;
+    if new_len <? l then truncate v new_len
+    else if new_len =? l then ret tt
+    else
+      reserve v (new_len - l) ;;;
+      resize_loop (small (new_len - l)) v value 0 (new_len - l).
+
+  (* ... and Rust's glue: the by-value argument is dropped at the end, also when the body unwinds *)
   Definition resize (v : nat) (new_len : Z) (value : elem) : M unit :=
-    try_finally
-      (l <- len v ;;
-       if new_len =? l then ret tt
-       else if l <? new_len then
-         reserve v (new_len - l) ;;;
-         repeat_m (small (new_len - l)) (c <- clone_elem value ;; push v c)
-       else truncate v new_len)
-      (drop_elem value).
+    try_finally (resize_body v new_len value) (drop_elem value).
 
   (* generator closure: script 'S' (default) = a fresh element, 'P' = panic *)
   Definition gen_elem (sc : list answer) : M (elem * list answer) :=
@@ -936,11 +954,6 @@ Section WithCfg.
     | None => panic
     | Some e => ret e
     end.
-
-  (* usize `a + b`: panics in a debug build, wraps in an optimized one (as Eval.arith) *)
-  Definition uadd (a b : Z) : M Z :=
-    let r := a + b in
-    if r <? W64 then ret r else if release cfg then ret (r - W64) else panic.
 
   (* src/clone.rs: `for i in 0..self.len() { copy.push(self[i].clone()) }` as the translator renders a
      range loop: `while i < hi { copy.push(self[i].clone()); i += 1 }` (EquivClone.v ties the regenerated
